@@ -4,6 +4,8 @@
   laws) is in the section below and uses the inference model.
 -/
 import MellonProofs.KernelLemmas
+import MellonProofs.MatrixBridge
+import MellonModel.Inference
 import Mathlib.LinearAlgebra.Matrix.Orthogonal
 import Mathlib.Data.Matrix.Mul
 
@@ -165,5 +167,93 @@ theorem profile_scale_invariant (a ls dist : ℝ) (ha : a ≠ 0) :
   · simp only [expquadProfile, hdiv]
   · simp only [exponentialProfile, hdiv]
   · intro α; simp only [ratquadProfile, hdiv]
+
+/-! ### scaling laws of the likelihood (part 2) -/
+
+/-- The closed-form MLE log-density shifts by `−d·log a` when distances are multiplied by `a`. -/
+theorem mle_scale (a r d : ℝ) (ha : 0 < a) (hr : 0 < r) :
+    mle (a * r) d = mle r d - d * Real.log a := by
+  simp only [mle, log_real, lit2, lgamma_real, pi_real, Real.log_mul (ne_of_gt ha) (ne_of_gt hr)]
+  ring
+
+/-- One likelihood term: with distances scaled by `a` and the log-density shifted by `−d·log a`
+    the term changes by exactly `−log a`. -/
+theorem nnTerm_scale (a r d ld : ℝ) (ha : 0 < a) (hr : 0 < r) :
+    nnTerm (a * r) d (ld - d * Real.log a) = nnTerm r d ld - Real.log a := by
+  have hV : nnLogV (a * r) d = nnLogV r d + d * Real.log a := by
+    simp only [nnLogV, log_real, Real.log_mul (ne_of_gt ha) (ne_of_gt hr)]; ring
+  have hVdr : nnLogVdr (a * r) d = nnLogVdr r d + (d - 1) * Real.log a := by
+    simp only [nnLogVdr, log_real, Real.log_mul (ne_of_gt ha) (ne_of_gt hr)]; ring
+  simp only [nnTerm, hV, hVdr, exp_real]
+  have e : ld - d * Real.log a + (nnLogV r d + d * Real.log a) = ld + nnLogV r d := by ring
+  rw [e]; ring
+
+/-- The whole nearest-neighbour log-likelihood shifts by `−n·log a` (scalar dimensionality `d`). -/
+theorem nnLoglik_scale {n : Nat} (a d : ℝ) (ha : 0 < a) (r r' ld ld' : Vector ℝ n)
+    (hr : ∀ i, i < n → 0 < r.nth i) (hr' : ∀ i, i < n → r'.nth i = a * r.nth i)
+    (hld : ∀ i, i < n → ld'.nth i = ld.nth i - d * Real.log a) :
+    nnLoglik r' (.scalar d) ld' = nnLoglik r (.scalar d) ld - n * Real.log a := by
+  unfold nnLoglik
+  rw [nsum_eq_sum, nsum_eq_sum]
+  have : ∀ i ∈ Finset.range n, nnTerm (r'.nth i) ((DimArg.scalar d : DimArg ℝ n).get i) (ld'.nth i)
+      = nnTerm (r.nth i) ((DimArg.scalar d : DimArg ℝ n).get i) (ld.nth i) - Real.log a := by
+    intro i hi
+    have hi' := Finset.mem_range.mp hi
+    simp only [DimArg.get]
+    rw [hr' i hi', hld i hi', nnTerm_scale a _ d _ ha (hr i hi')]
+  rw [Finset.sum_congr rfl this, Finset.sum_sub_distrib]
+  simp
+
+/-- **Scale covariance of the inference problem.** With distances scaled by `a`, the same factor
+    `L` (Gram matrices are unchanged when the length scale scales with the data) and the prior mean
+    shifted by `−d·log a`, the loss at every latent vector `z` is the old loss plus `n·log a`:
+    same minimiser, fitted log-densities shifted by exactly `−d·log a`. -/
+theorem loss_scale {n m : Nat} (a d mu : ℝ) (ha : 0 < a) (r r' : Vector ℝ n) (L : Mat ℝ n m) (k : Nat)
+    (z : Vector ℝ m) (hr : ∀ i, i < n → 0 < r.nth i) (hr' : ∀ i, i < n → r'.nth i = a * r.nth i) :
+    lossFunc r' (.scalar d) (mu - d * Real.log a) L k z = lossFunc r (.scalar d) mu L k z + n * Real.log a
+    ∧ ∀ i, i < n → (transform (mu - d * Real.log a) L z).nth i = (transform mu L z).nth i - d * Real.log a := by
+  have htr : ∀ i, i < n →
+      (transform (mu - d * Real.log a) L z).nth i = (transform mu L z).nth i - d * Real.log a := by
+    intro i hi
+    simp only [transform, nth_vecOfFn, hi, if_true]; ring
+  refine ⟨?_, htr⟩
+  unfold lossFunc
+  rw [nnLoglik_scale a d ha r r' (transform mu L z) (transform (mu - d * Real.log a) L z) hr hr' htr]
+  ring
+
+/-- **Only `L Lᵀ` matters.** Two factors related by an orthogonal matrix (`L' = L Q`, `QᵀQ = 1` — any
+    two square factors of the same positive definite matrix are) give the same loss landscape up to the
+    reparametrisation `z ↦ Q z`: same attainable (loss, fitted values) pairs, hence the same MAP
+    fitted values.  This is why fitted values follow a permutation of the cells although Cholesky
+    factors do not. -/
+theorem loss_orthogonal_reparam {n m : Nat} (r : Vector ℝ n) (d : DimArg ℝ n) (mu : ℝ)
+    (L L' : Mat ℝ n m) (Q : Matrix (Fin m) (Fin m) ℝ) (hQ : Qᵀ * Q = 1) (hL : toM L' = toM L * Q)
+    (k : Nat) (z z' : Vector ℝ m) (hz : toV z' = Q *ᵥ toV z) :
+    lossFunc r d mu L' k z = lossFunc r d mu L k z'
+    ∧ ∀ i, i < n → (transform mu L' z).nth i = (transform mu L z').nth i := by
+  have htr : ∀ i, i < n → (transform mu L' z).nth i = (transform mu L z').nth i := by
+    intro i hi
+    simp only [transform, nth_vecOfFn, hi, if_true, nsum_eq_sum]
+    congr 1
+    have h1 : (toM L' *ᵥ toV z) ⟨i, hi⟩ = (toM L *ᵥ toV z') ⟨i, hi⟩ := by
+      rw [hL, hz, Matrix.mulVec_mulVec]
+    simp only [Matrix.mulVec, dotProduct, toM_apply, toV_apply] at h1
+    rw [sum_fin_eq_range (fun t => L'.el i t * z.nth t), sum_fin_eq_range (fun t => L.el i t * z'.nth t)] at h1
+    exact h1
+  have hss : sumSq z' = sumSq z := by
+    unfold sumSq
+    rw [nsum_eq_sum, nsum_eq_sum, ← sum_fin_eq_range (fun i => z'.nth i * z'.nth i),
+      ← sum_fin_eq_range (fun i => z.nth i * z.nth i)]
+    have e1 : ∑ i : Fin m, z'.nth i * z'.nth i = toV z' ⬝ᵥ toV z' := by simp [dotProduct]
+    have e2 : ∑ i : Fin m, z.nth i * z.nth i = toV z ⬝ᵥ toV z := by simp [dotProduct]
+    rw [e1, e2, hz, Matrix.dotProduct_mulVec, ← Matrix.mulVec_transpose, dotProduct_comm,
+      Matrix.mulVec_mulVec, hQ, Matrix.one_mulVec]
+  refine ⟨?_, htr⟩
+  unfold lossFunc normalLogpdf nnLoglik
+  rw [hss]
+  congr 2
+  apply nsum_congr
+  intro i hi
+  rw [htr i hi]
 
 end Mellon.C08
